@@ -214,7 +214,7 @@ def _catalog(ctx):
     for i, c in enumerate(cases):
         c["id"] = i + 1
     if ctx.quick() and not ctx.replay_path:
-        cases = [c for c in cases if c["family"] != "ctxnest" or c["id"] % 6 == 0]
+        cases = [c for c in cases if c["family"] != "ctxnest" or c["id"] % 12 == 0]
     json.dump(cases, open(path, "w"))
     return path
 
@@ -662,7 +662,7 @@ def run(ctx):
 
     # one harness process per job.  v1: plain build, every operation alone with fingerprints (more repetitions)
     # + hammer cases; v2: race build, sequential phase + cases; c-<op>: race build, cold.
-    reps1 = ctx.pick(6, 25)
+    reps1 = ctx.pick(4, 25)
     jobs = []
     for f in ids:
         jobs.append({"key": "%s/v1" % f, "font": f, "bin": st.bin, "cases": plain[f], "reps": reps1, "race": False, "cold": False})
